@@ -60,6 +60,12 @@ REGISTRY = {
                 undecided=[],
                 trusted=['cos^2+sin^2=1, cos 0 = 1, sin 0 = 0, sqrt axioms; np.array of an unbounded list of rows keeps the rows',
                          'taper1/taper2 (search loops over k with for-else) and Helix.__init__ are NOT under contract: bounded stand-in only']),
+    'C20': dict(module='contracts.C20', level='proof',
+                native=native_sweep('c20_failsafe.py', 'about 400 argument lists: every option with every field zero / negative / huge / tiny / nan / inf / text / empty, wrong arity, unknown tags, contradictory options, degenerate and duplicate geometry; outcome classified as report / one-line diagnostic / usage error', 100000, 100000),
+                undecided=['finiteness of the numbers produced by the numeric stage (singular or ill-conditioned systems, non-finite inputs): recorded findings C20-nonfinite, C20-singular',
+                           'readers not yet under contract: --geo-rotate/translate/scale, --laplace-load-a/-b pairing, --skin-effect-*, --insulation-load, --theta/--phi/--near-field (native fuzz only)'],
+                trusted=['argparse: action=append collects values in command-line order; type= applies the constructor and turns ValueError into the usage error',
+                         'constructor raises clauses as summarised (ValueError; Medium also TypeError)']),
     'C19': dict(module='contracts.C19', level='other',
                 native=native_sweep('c19_format.py', 'run-time contract of format_float over a boundary lattice (43 decades x 2 signs x use_e x rounding-boundary mantissas) and read-back of complete reports of electrically tiny and ordinary antennas', 20, 3000),
                 undecided=[],
